@@ -40,6 +40,7 @@ ANCHORS = ["txtorcon.torcontrolprotocol:TorControlProtocol.connectionLost",
            "txtorcon.util:SingleObserver.when_fired"]
 FLOORS = {"quick": {"evaluations": 3000, "deferreds_audited": 8000, "postloss_submissions": 2000,
                     "disconnect_notifications_audited": 2000, "unanswered_quit_or_signal_audited": 300, "losses_from_inside_a_reply_callback": 300, "submissions_from_on_disconnect_callback": 100,
+                    "cases_with_debug_log_on": 300, "nonascii_commands_refused_at_submission": 150,
                     "losses_with_1000_or_more_commands_queued": 2,
                     "reach:txtorcon.torcontrolprotocol:TorControlProtocol.connectionLost": 3000},
           "thorough": {"evaluations": 60000, "deferreds_audited": 150000, "postloss_submissions": 40000}}
@@ -84,6 +85,15 @@ def gen_case(rnd, boot_in_run=False, max_cmds=6):
         if rnd.random() < 0.1:
             cmds[-1].update({"cmd": "QUIT", "api": "quit", "perline": False})
     total = sum(len(R.encode(*c["reply"])) for c in cmds if not c.get("post"))
+    if rnd.random() < 0.12:
+        # free-text option values are not always ASCII: the API may refuse such a text when it
+        # is submitted, or accept it - in which case the loss must fail it like any other command
+        txt = rnd.choice(["SETCONF ContactInfo=\"Zo\u00eb <zoe@example.invalid>\"", "SETCONF Nickname=caf\u00e9",
+                          "GETINFO \u00fc", "SETCONF ContactInfo=\u65e5\u672c"])
+        when = rnd.choice([("start",), ("start",), ("postloss",)] + [("fire", k) for k in range(n)])
+        cmds.append({"cmd": txt, "perline": rnd.random() < 0.2, "reply": (250, [("end", "OK")]), "when": when,
+                     "may_refuse": True, "post": when == ("postloss",), "nonascii": True,
+                     "late_watch": False})
     return {"cmds": cmds, "total": total + (ctl_boot_len() if boot_in_run else 0),
             "boot_in_run": boot_in_run,
             "reason": rnd.choice(["done", "lost", "boom"]),
@@ -91,11 +101,28 @@ def gen_case(rnd, boot_in_run=False, max_cmds=6):
             "wd_behaviours": [rnd.choice(["none", "none", "again", "submit"]) for _ in range(3)],
             "local_close": rnd.choice([0, 0, 0, 1]),
             "od_submit": rnd.random() < 0.15,
+            "debug": rnd.random() < 0.12,
             "cancels": cancels,
             "chunking": gen.chunking(rnd)}
 
 
 _boot_len = []
+_scratch = []
+
+
+def _scratch_cwd():
+    """chdir once per shard process into a scratch directory that is removed at exit"""
+    if not _scratch:
+        import atexit, os, shutil, tempfile
+        d = tempfile.mkdtemp(prefix="vf-c03-")
+        _scratch.append(d)
+        old = os.getcwd()
+        os.chdir(d)
+
+        def cleanup():
+            os.chdir(old)
+            shutil.rmtree(d, ignore_errors=True)
+        atexit.register(cleanup)
 
 
 def ctl_boot_len():
@@ -124,6 +151,15 @@ def run_case(case, rec):
             s.submit_due()
             return p
         s.proto.post_bootstrap.addCallback(ready)
+    if case.get("debug"):
+        # the application switched the protocol's debug log on (public start_debug(); it writes
+        # 'txtorcon-debug.log' in the working directory, which is a scratch directory here)
+        _scratch_cwd()
+        try:
+            s.proto.start_debug()
+            rec.count("cases_with_debug_log_on")
+        except Exception as e:
+            s.exceptions.append(("submit", -1, repr(e)))
     s.start()
     if s.boot_failed:
         rec.violation("bootstrap-failed", "bootstrap", {"exc": s.exceptions}, case)
@@ -269,6 +305,12 @@ def run_case(case, rec):
     icls_q = "0" if unanswered == 0 else ("1" if unanswered == 1 else "2+")
     for (r, o, answered) in verdicts:
         rec.count("deferreds_audited")
+        if o is None and r.refused:
+            # refused synchronously: no Deferred exists, nothing can be left pending
+            rec.count("nonascii_commands_refused_at_submission")
+            continue
+        if r.spec.get("nonascii"):
+            rec.count("nonascii_commands_accepted_and_audited")
         if o is None:
             V("submit-raised", {"cmd": r.idx, "exc": repr(r.submit_exc), "post": bool(r.spec.get("post"))})
             continue
